@@ -1043,7 +1043,9 @@ impl Tuple {
         // Copy existing deltas
         if existing_deltas_size > 0 {
             let existing_deltas = &self.data.effective_data()[existing_deltas_start..];
-            buffer[cursor..cursor + existing_deltas_size].copy_from_slice(existing_deltas);
+            let start = DeltaHeader::aligned_offset(cursor);
+            buffer[cursor..start].fill(0);
+            buffer[start..start + existing_deltas_size].copy_from_slice(existing_deltas);
         }
 
         self.data = new_data;
@@ -1159,8 +1161,11 @@ impl Tuple {
             }
         }
 
-        // Existing deltas
-        size += existing_deltas_size;
+        // Existing deltas (every delta header is read from an aligned offset)
+        if existing_deltas_size > 0 {
+            size = DeltaHeader::aligned_offset(size);
+            size += existing_deltas_size;
+        }
 
         size
     }
